@@ -57,6 +57,18 @@ pub fn write_shards(
     files
 }
 
+/// Keep at most `per_tag` failures for every distinct "prop" tag, so that a flood of failures of one kind can
+/// never push the failures that contradict another property out of a truncated list.
+pub fn cap_failures(v: &mut Vec<serde_json::Value>, per_tag: usize) {
+    let mut seen: std::collections::HashMap<String, usize> = std::collections::HashMap::new();
+    v.retain(|f| {
+        let tag = f.get("prop").and_then(|p| p.as_str()).unwrap_or("").to_string();
+        let c = seen.entry(tag).or_insert(0);
+        *c += 1;
+        *c <= per_tag
+    });
+}
+
 fn main() {
     let argv: Vec<String> = std::env::args().collect();
     if argv.len() < 2 {
